@@ -15,7 +15,7 @@ TECH_SCHED = "deterministic simulation: seeded schedule search (shuttle random +
 TECH_POLL = "deterministic simulation with fault enumeration: the simulator polls #[cache_async] futures by hand, takes every poll boundary as suspension and as cancellation point, runs seeded interleaved programs meanwhile; model-based oracle"
 
 TEXT = {
-    "C01": ("exploration", "Seeded search over histories at two levels (core caches built directly; 289 macro-generated functions): every returned value must carry the stamp of an execution of the same function with the same arguments, and every value served from the cache must be the one last stored for that key (stamps are unique per execution, so a stale, foreign or replaced value is attributable). Plus the polling engine: a value served to a call that overlapped a suspended computation of the same key must be the one stored last."),
+    "C01": ("exploration", "Seeded search over histories at two levels (core caches built directly; about 290 macro-generated functions): every returned value must carry the stamp of an execution of the same function with the same arguments, and every value served from the cache must be the one last stored for that key (stamps are unique per execution, so a stale, foreign or replaced value is attributable). Plus the polling engine: a value served to a call that overlapped a suspended computation of the same key must be the one stored last."),
     "C03": ("exploration", "Seeded search over call histories on corpus functions without limit/ttl/max_memory/predicates (all three flavours, actors on fresh OS threads for thread scope): the body runs iff the model holds no entry for the key; plus seeded schedule search over 2-3 concurrent callers: no execution starts after a storing call for the same key has returned."),
     "C04": ("exploration", "Seeded search at both levels: after every completed operation at most `limit` entries; an overflowing store removes exactly one entry, a non-overflowing one none (also after expiry purges and invalidations, which must free their capacity). Plus seeded schedule search: programs that use at most `limit` distinct keys must never re-execute a key whose storing call has returned (nothing may be evicted without overflow), and general concurrent programs must respect the limit at quiescence."),
     "C05": ("exploration", "Seeded search with values of eight shapes sized around max_memory; footprints are computed by the harness independently of the library's estimator: total <= M after every store, oversize values are not cached and displace nothing, no eviction while the total fits, no more evictions than needed."),
@@ -89,7 +89,7 @@ def main():
             {"name": "seq-l1", "path": "sim/real/harness/src/l1.rs", "serves_properties": sorted(p for p in PLAN if any(x["engine"] == "l1" for x in PLAN[p]["parts"])),
              "kind_free_text": "sequential discrete-event simulation of the three core caches on harness-owned storage, simulated clock, real parking_lot/dashmap"},
             {"name": "seq-l2", "path": "sim/real/harness/src/l2.rs", "serves_properties": sorted(p for p in PLAN if any(x["engine"] == "l2" for x in PLAN[p]["parts"])),
-             "kind_free_text": "sequential / turnstile-actor simulation of 289 macro-generated functions (real proc-macros), black-box observation incl. key listing"},
+             "kind_free_text": "sequential / turnstile-actor simulation of about 290 macro-generated functions (real proc-macros), black-box observation incl. key listing"},
             {"name": "sched", "path": "sim/sched/harness/src", "serves_properties": sorted(p for p in PLAN if any(x["engine"] == "sched" for x in PLAN[p]["parts"])),
              "kind_free_text": "shuttle executions of real cachelito code over scheduled shims of parking_lot/dashmap/once_cell"},
             {"name": "poll", "path": "sim/sched/harness/src", "serves_properties": sorted(p for p in PLAN if any(x["engine"] == "poll" for x in PLAN[p]["parts"])),
